@@ -42,7 +42,13 @@ type funcMapType[V Value] struct {
 }
 
 func (f funcMapType[V]) Get(key string) (Value, bool) {
-	return f.mff.fMap(f.value, key)
+	// only the declared keys are keys of the map, as in Iter and Size
+	for _, k := range f.mff.keys {
+		if k == key {
+			return f.mff.fMap(f.value, key)
+		}
+	}
+	return nil, false
 }
 
 func (f funcMapType[V]) Iter(yield func(key string, v Value) bool) {
@@ -58,7 +64,14 @@ func (f funcMapType[V]) Iter(yield func(key string, v Value) bool) {
 }
 
 func (f funcMapType[V]) Size() int {
-	return len(f.mff.keys)
+	// a declared key the function does not supply is not present, see Iter
+	size := 0
+	for _, k := range f.mff.keys {
+		if _, ok := f.mff.fMap(f.value, k); ok {
+			size++
+		}
+	}
+	return size
 }
 
 type emptyMapStorage struct {
